@@ -249,6 +249,19 @@ def interesting(c):
     return False
 
 
+_METHODS = {}
+
+
+def method(kind):
+    """SqlMethod objects are module-level objects in real use: created once, used for many queries"""
+    if kind not in _METHODS:
+        if kind == "group":
+            _METHODS[kind] = SqlMethod("SELECT n, count(*) AS cnt FROM t", group_by="n", order_by="n")
+        else:
+            _METHODS[kind] = SqlMethod("SELECT id, n, s FROM t", order_by="id")
+    return _METHODS[kind]
+
+
 def run_case(ctx, rng):
     ctx.evaluated()
     db = sqlite3.connect(":memory:")
@@ -288,7 +301,8 @@ def run_case(ctx, rng):
         call_kw['_order_by'] = order
     try:
         if mode == "group":
-            m = SqlMethod("SELECT n, count(*) AS cnt FROM t", group_by="n", order_by="n")
+            m = method("group") if rng.random() < 0.8 else SqlMethod(
+                "SELECT n, count(*) AS cnt FROM t", group_by="n", order_by="n")
             call_kw.pop('_order_by', None)
             got = [tuple(r) for r in m.list(conn, *args, **call_kw)]
             cnt = {}
@@ -299,7 +313,7 @@ def run_case(ctx, rng):
             if got != want:
                 ctx.violation("grouped-result-differs", {"got": got, "expected": want, "stmt": conn.log[-1]}, case)
         else:
-            m = SqlMethod("SELECT id, n, s FROM t", order_by="id")
+            m = method("rows") if rng.random() < 0.8 else SqlMethod("SELECT id, n, s FROM t", order_by="id")
             if mode in ("one", "one_or_none"):
                 ctx.count("one_row_semantics_checked")
                 try:
